@@ -53,22 +53,22 @@ set_option maxHeartbeats 100000000 in
 theorem safe_GetAllAddressesWithPubkey : safe prog exports imports closed checkFuel (.invoke Fn.GetAllAddressesWithPubkey) = true := by decide +kernel
 
 set_option maxHeartbeats 100000000 in
-theorem safe_GetBindingHistory_api : safe prog exports imports closed checkFuel (.invoke Fn.GetBindingHistory_api) = true := by decide +kernel
+theorem safe_GetBindingHistory_api : safe prog exports imports closed checkFuel (.invoke Fn.GetBindingHistory_tx_service) = true := by decide +kernel
 
 set_option maxHeartbeats 100000000 in
 theorem safe_GetClientStatus : safe prog exports imports closed checkFuel (.invoke Fn.GetClientStatus) = true := by decide +kernel
 
 set_option maxHeartbeats 100000000 in
-theorem safe_GetStakingHistory_api : safe prog exports imports closed checkFuel (.invoke Fn.GetStakingHistory_api) = true := by decide +kernel
+theorem safe_GetStakingHistory_api : safe prog exports imports closed checkFuel (.invoke Fn.GetStakingHistory_tx_service) = true := by decide +kernel
 
 set_option maxHeartbeats 100000000 in
 theorem safe_GetTxStatus : safe prog exports imports closed checkFuel (.invoke Fn.GetTxStatus) = true := by decide +kernel
 
 set_option maxHeartbeats 100000000 in
-theorem safe_ImportWallet_api : safe prog exports imports closed checkFuel (.invoke Fn.ImportWallet_api) = true := by decide +kernel
+theorem safe_ImportWallet_api : safe prog exports imports closed checkFuel (.invoke Fn.ImportWallet_wallet_service) = true := by decide +kernel
 
 set_option maxHeartbeats 100000000 in
-theorem safe_Stop_wm : safe prog exports imports closed checkFuel (.invoke Fn.Stop_wm) = true := by decide +kernel
+theorem safe_Stop_wm : safe prog exports imports closed checkFuel (.invoke Fn.Stop_wallet) = true := by decide +kernel
 
 set_option maxHeartbeats 100000000 in
 theorem safe_processConnectedBlock : safe prog exports imports closed checkFuel (.invoke Fn.processConnectedBlock) = true := by decide +kernel
